@@ -6,8 +6,8 @@ META = {
     "property_id": "C26",
     "level": "model_checking",
     "technique": "executable TLA+ small-step semantics with gas (MiniEVM.tla, written from the Yellow Paper/EIPs) model-checked by TLC on enumerated programs; TLC-computed results replayed on core.ApplyMessage; opcode-granularity traces of the real EVM validated step by step against MiniEVMTrace.tla",
-    "text": "MiniEVM.tla gives exact semantics and gas to an EVM fragment (arithmetic/compare/bitwise, stack, memory, storage with EIP-2200/2929/3529, transient storage, jumps, LOG, CALL/CALLCODE/DELEGATECALL/STATICCALL with 63/64 rule and stipend, CREATE/CREATE2 with deposit and EIP-3541/3860, RETURN/REVERT, SELFDESTRUCT per EIP-6780) and to the transaction envelope (validity, intrinsic gas, access-list warming, EIP-7623 floor, EIP-7825 cap, refund cap, tip/burn) for Cancun, Prague and Osaka. TLC enumerates short programs and checks the semantics' own sanity (gas never created, failed frames restore state, total function) and emits every (world, tx, result) as a case that the driver executes with core.ApplyMessage and compares (status, gas used, balances, nonces, storage). Generated contract worlds (nested calls of all kinds, creates, self-destructs, reverts, out-of-gas at arbitrary points, invalid transactions, access lists) are executed by the real EVM under core/tracing hooks and TLC checks every instruction: pc, opcode, gas, stack, memory size before it, the cost charged, whether it faults, every frame entry/exit (gas forwarded, gas returned, outcome) and the receipt and post-state.",
-    "note": "The execution-specs reference implementation (EELS) is not installed: MiniEVM.tla stands in for it on its fragment, so this is agreement with an independently written executable specification, not EELS conformance. Values >= 2^30 are tokens (identity only); results the specification cannot compute (hashes, big arithmetic, created addresses, precompile outputs, memory written by *COPY) are taken from the trace and only constrained. Transactions executing opcodes outside the fragment (BLOCKHASH, BLOBHASH, EXTCODECOPY) or EIP-7702 delegations are left out; blob and set-code transactions, withdrawals and system-call requests are not covered; the t8ntool package is internal: the tool is driven as an `evm t8n` subprocess (thorough tier) and compared with core.ApplyMessage.",
+    "text": "MiniEVM.tla gives exact semantics and gas to an EVM fragment (arithmetic/compare/bitwise, stack, memory, storage with EIP-2200/2929/3529, transient storage, jumps, LOG, CALL/CALLCODE/DELEGATECALL/STATICCALL with 63/64 rule and stipend, CREATE/CREATE2 with deposit and EIP-3541/3860, RETURN/REVERT, SELFDESTRUCT per EIP-6780) and to the transaction envelope (validity, intrinsic gas, access-list warming, EIP-7623 floor, EIP-7825 cap, refund cap, tip/burn, EIP-4844 blob fee, EIP-7702 authorisation lists and delegated code) for Cancun, Prague and Osaka. TLC enumerates short programs and checks the semantics' own sanity (gas never created, failed frames restore state, total function) and emits every (world, tx, result) as a case that the driver executes with core.ApplyMessage and compares (status, gas used, balances, nonces, storage). Generated contract worlds (nested calls of all kinds, creates, self-destructs, reverts, out-of-gas at arbitrary points, invalid transactions, access lists) are executed by the real EVM under core/tracing hooks and TLC checks every instruction: pc, opcode, gas, stack, memory size before it, the cost charged, whether it faults, every frame entry/exit (gas forwarded, gas returned, outcome) and the receipt and post-state.",
+    "note": "The execution-specs reference implementation (EELS) is not installed: MiniEVM.tla stands in for it on its fragment, so this is agreement with an independently written executable specification, not EELS conformance. Values >= 2^30 are tokens (identity only); results the specification cannot compute (hashes, big arithmetic, created addresses, precompile outputs, memory written by *COPY) are taken from the trace and only constrained. Transactions executing opcodes outside the fragment (BLOCKHASH, BLOBHASH, EXTCODECOPY) are left out; blob data/KZG, withdrawals and system-call requests are not covered; the t8ntool package is internal: the tool is driven as an `evm t8n` subprocess (thorough tier) and compared with core.ApplyMessage.",
     "design_ref": "3.5 C26",
 }
 
@@ -30,7 +30,7 @@ def run(ctx):
     drv = ctx.build("c26")
     # MC + R: TLC runs the specification machine on every enumerated program / pre-state /
     # transaction, checks the sanity invariants on every state and prints each finished case
-    fams = ["sstore", "seq2", "call", "tx"] + (["seq"] if ctx.thorough else [])
+    fams = ["sstore", "seq2", "call", "tx", "auth", "blob"] + (["seq"] if ctx.thorough else [])
     for fam in fams:
         res = ctx.model_check("evm/MCMiniEVM", "evm/MCMiniEVM-" + fam, workers=4, tags=("CASE",), timeout=7200, name="MCMiniEVM-" + fam)
         cases = res.lines.get("CASE", [])
@@ -58,6 +58,6 @@ def run(ctx):
         ok, consumed, total, r = ctx.validate("evm/MiniEVMTrace", tp, ntraces=s["traces"], timeout=7200)
         if not ok:
             ctx.reject_trace("evm/MiniEVMTrace", tp, consumed, r)
-    return ctx.finish(rule="MC+R: every case of the families sstore/seq/call/tx computed by TLC and replayed; V: every generated transaction = one trace (tx, enter/opc/exit events, txend with post-state)",
+    return ctx.finish(rule="MC+R: every case of the families sstore/seq/call/tx/auth/blob computed by TLC and replayed; V: every generated transaction = one trace (tx, enter/opc/exit events, txend with post-state)",
                       assumptions=["word values < 2^30 exact, larger values as identity tokens", "gas limits <= 4.2M",
-                                   "no EIP-7702 delegations, blobs, system calls"])
+                                   "no blob data / KZG, withdrawals, system calls"])
